@@ -38,8 +38,13 @@ func main() {
 	replay := flag.String("replay", "", "replay file")
 	root := flag.String("root", "", "harness root (default: VERIF_ROOT or /verif)")
 	worker := flag.String("worker", "", "internal: run as a worker process")
+	deepSpec := flag.String("deep", "", "internal: depth,kind of the deep-nesting worker")
 	flag.Parse()
 	if *worker != "" {
+		if *worker == "deep" {
+			deepWorker(*deepSpec)
+			return
+		}
 		runWorker(*worker)
 		return
 	}
@@ -114,6 +119,10 @@ func runWorker(kind string) {
 		dotWorker()
 	case "history":
 		historyWorker()
+	case "totality":
+		totalityWorker()
+	case "steps":
+		stepsWorker()
 	default:
 		fmt.Println("unknown worker", kind)
 		os.Exit(2)
